@@ -637,6 +637,18 @@ func (c *Ctx) c05TextCase() {
 	rans2, gs2 := c05Read(text2)
 	c.Emit("c05.read", hx(text2), rans2)
 	if gs2 != nil {
+		// load → save → load returns the first load's scene (obj_reload: every group has a face)
+		allFaces := true
+		for _, g := range gs {
+			if g.Mesh.PrimitiveCount() == 0 {
+				allFaces = false
+			}
+		}
+		if allFaces {
+			c.Emit("c05.holds.reload", strings.TrimPrefix(rans, "ok ")+" "+strings.TrimPrefix(rans2, "ok "), "true")
+		} else {
+			c.Note("text.reload-skipped-empty-group")
+		}
 		if s3, t3 := c05Resave(gs2); t3 != nil {
 			c.Emit(c05ResaveOp(gs2), hx(text2)+" "+s3, "true")
 		}
